@@ -473,11 +473,14 @@ def gen_cases(ck: Check):
         pool = {"a": ("list", list(range(1, n + 1)))}
         lims = [None, 0, 1, 2, 3] if ck.quick else [None, -1, 0, 1, 2, 3, 5]
         for l1, l2, l3 in itertools.product(lims, repeat=3):
-            for first_off in (None, "continue", ("int", 1, "lit")):
+            # the middle loop either continues or is a plain loop over the same key (a plain loop OVERWRITES the stored stop index,
+            # also with 0 when it stops at the very beginning: limit 0, an empty collection)
+            for first_off, second_off in ((None, "continue"), ("continue", "continue"), (("int", 1, "lit"), "continue"),
+                                          (None, None), (("int", 1, "lit"), None), (None, ("int", 0, "lit"))):
                 body = []
                 for j, l in enumerate((l1, l2, l3)):
                     loop = {"it": "a", "limit": None if l is None else ("int", l, "lit"),
-                            "offset": first_off if j == 0 else "continue", "rev": False}
+                            "offset": first_off if j == 0 else (second_off if j == 1 else "continue"), "rev": False}
                     body.append(("for", loop, [("print",)], [("text", "E")]))
                     body.append(("text", "|"))
                 yield "chain", Case(pool, body)
